@@ -36,7 +36,7 @@ func condObject(base map[string]model.Value, k int, mask int, r *rand.Rand) map[
 func c02(c *ev.Ctx) {
 	c.SetRule("random structured programs (if/else-if/else, while/for, foreach over array/string/hash/range/variable with optional index, switch with literal/expression/regexp/multi-value arms and default in any position, ternary, return at any depth); every program is run under every truth assignment of its condition fields C1..Ck (fresh evaluator per assignment), optimised and NoOptimize; compared with the reference model on result, host-call trace (unique ids per trace call) and variables left. Distinct = distinct (program, assignment); non-trivial = model defines the outcome and the trace is non-empty or the result non-null.")
 	c.Assume("reference model internal/model; value-yielding expression statements inside foreach bodies are a known finding and excluded by the generator")
-	n := c.Pick(4000, 40000)
+	n := c.Pick(1000, 40000)
 	c.ParFor(n, func(i int) {
 		id := fmt.Sprintf("prog/%d", i)
 		if !c.Want(id) {
